@@ -6,6 +6,7 @@
     [_partial]).  Whole-object equality is judged on the implementation (h_persist). *)
 Require Import LdkV.Prim.U64 LdkV.Codec.Combinators LdkV.Codec.Tlv LdkV.Gen.PersistSchemas.
 Require Import LdkV.Proofs.C13Base LdkV.Proofs.C13Tlv LdkV.Proofs.C12.
+Require Import LdkV.Codec.Persist LdkV.Proofs.C12Compat.
 Open Scope Z_scope.
 
 (** any TLV schema with strictly ascending types (required / option / optional_vec / default_value
@@ -73,3 +74,123 @@ Example C12_example :
   suffix_dec (fun _ => true) es [10; 0; 8; 0; 0; 0; 0; 0; 0; 0; 5; 99] = ROk ([Some [VZ 5]; Some [VZ 7]; None], [99]) /\
   suffix_dec (fun _ => true) es [4; 2; 2; 0; 9] = RErr "InvalidValue".
 Proof. repeat split; vm_compute; reflexivity. Qed.
+
+(** ---------------------------------------------------------------------------------------------
+    Compatibility across versions of a schema (what fix eef008b relies on). *)
+
+(** A writer that ADDS an odd TLV anywhere in a schema is still read by the OLD schema with the same
+    values for all old fields (any schema, any position, any codec of the new field). *)
+Theorem C12_odd_extension_compatible : forall pk es1 e es2 v1 ov v2,
+  tlvs_wf (es1 ++ e :: es2) = true -> e_ty e mod 2 = 1 ->
+  tlv_dom pk es1 v1 = true -> entry_dom pk e ov = true -> tlv_dom pk es2 v2 = true ->
+  tlv_dec pk (es1 ++ es2) (tlv_enc (es1 ++ e :: es2) (v1 ++ ov :: v2)) = ROk (v1 ++ v2).
+Proof. exact odd_extension_old_reader. Qed.
+
+(** Data written by the OLD schema reads under the NEW one; the added optional field takes its absent
+    value ([None]; the empty vector for optional_vec). *)
+Theorem C12_old_data_reads_under_extension : forall pk es1 e es2 v1 v2,
+  tlvs_wf (es1 ++ e :: es2) = true -> (e_kind e = KOpt \/ e_kind e = KOptVec) ->
+  tlv_dom pk es1 v1 = true -> tlv_dom pk es2 v2 = true ->
+  tlv_dec pk (es1 ++ e :: es2) (tlv_enc (es1 ++ es2) (v1 ++ v2)) = ROk (v1 ++ absent_value e :: v2).
+Proof. exact old_data_new_reader. Qed.
+
+(** Both, for every split of every regenerated persistence schema and every new odd entry that fits
+    between the two halves. *)
+Theorem C12_persist_schemas_odd_extensible : forall pk name es1 es2 e v1 ov v2,
+  In (name, es1 ++ es2) persist_schemas ->
+  e_ty e mod 2 = 1 -> hi (-1) es1 < e_ty e < 2 ^ 64 -> tys_ascending (e_ty e) es2 = true -> fc_wf (e_fc e) = true ->
+  tlv_dom pk es1 v1 = true -> entry_dom pk e ov = true -> tlv_dom pk es2 v2 = true ->
+  tlv_dec pk (es1 ++ es2) (tlv_enc (es1 ++ e :: es2) (v1 ++ ov :: v2)) = ROk (v1 ++ v2) /\
+  ((e_kind e = KOpt \/ e_kind e = KOptVec) ->
+   tlv_dec pk (es1 ++ e :: es2) (tlv_enc (es1 ++ es2) (v1 ++ v2)) = ROk (v1 ++ absent_value e :: v2)).
+Proof. exact persist_odd_extension. Qed.
+
+(** default_value / required semantics.  [relax] turns (default_value, d) entries into option entries:
+    the domain [tlv_dom (map relax es)] therefore ALLOWS a defaulted field to be absent; [fill_all]
+    puts [Some d] exactly there.  A required field the writer never reached is rejected. *)
+Theorem C12_default_value_semantics : forall pk es vals, tlvs_wf es = true -> tlv_dom pk (map relax es) vals = true ->
+  tlv_dec pk es (tlv_enc es vals) = ROk (fill_all es vals).
+Proof. exact default_value_roundtrip. Qed.
+
+Theorem C12_persist_schemas_default_semantics : forall pk name es vals, In (name, es) persist_schemas ->
+  tlv_dom pk (map relax es) vals = true -> tlv_dec pk es (tlv_enc es vals) = ROk (fill_all es vals).
+Proof. exact persist_default_roundtrip. Qed.
+
+Theorem C12_required_missing_rejected : forall pk es1 e es2 v1,
+  tlvs_wf (es1 ++ e :: es2) = true -> e_kind e = KReq -> tlv_dom pk es1 v1 = true ->
+  tlv_dec pk (es1 ++ e :: es2) (tlv_enc es1 v1) = RErr "InvalidValue".
+Proof. exact required_missing_rejected. Qed.
+
+Theorem C12_required_empty_stream_rejected : forall pk es e, In e es -> e_kind e = KReq -> tlv_dec pk es [] = RErr "InvalidValue".
+Proof. exact required_empty_stream_rejected. Qed.
+
+(** ---------------------------------------------------------------------------------------------
+    Version prefix ([write_ver_prefix!] / [read_ver_prefix!]). *)
+Theorem C12_version_prefix_roundtrip : forall supported ver min_ver r, min_ver <= supported ->
+  ver_dec supported (ver_enc ver min_ver ++ r) = ROk (ver, r).
+Proof. exact ver_roundtrip. Qed.
+
+Theorem C12_version_too_new_rejected : forall supported ver min_ver r, supported < min_ver ->
+  ver_dec supported (ver :: min_ver :: r) = RErr "UnknownVersion".
+Proof. exact ver_too_new_rejected. Qed.
+
+(** For every persisted top-level object (SERIALIZATION_VERSION / MIN_SERIALIZATION_VERSION re-read from
+    the source on every run): what this version writes this version reads, and anything that declares
+    a larger minimum reader version is rejected with UnknownVersion. *)
+Theorem C12_persist_versions : forallb version_ok persist_versions = true /\
+  forall name v m, In (name, v, m) persist_versions ->
+    (forall r, ver_dec v (ver_enc v m ++ r) = ROk (v, r)) /\
+    (forall ver' min' r, v < min' -> ver_dec v (ver' :: min' :: r) = RErr "UnknownVersion").
+Proof. exact (conj persist_versions_ok persist_version_prefix). Qed.
+
+(** ---------------------------------------------------------------------------------------------
+    Whole objects of the simple class: version prefix ++ self-delimiting base fields ++ TLV suffix.
+    (Which of LDK's hand-written objects fall in this class is NOT extracted: their non-TLV prefixes
+    contain nested objects, maps and vectors of objects; for those the statement stays
+    [C12_framing_roundtrip_partial].) *)
+Theorem C12_prefixed_object_roundtrip : forall pk supported ver min_ver l es vs vals rest,
+  min_ver <= supported -> seq_dom pk l vs = true -> tlvs_wf es = true -> tlv_dom pk es vals = true ->
+  len (tlv_enc es vals) < 2 ^ 64 ->
+  obj_dec pk supported l es (obj_enc ver min_ver l es vs vals ++ rest) = ROk (ver, vs, vals, rest).
+Proof. exact prefixed_object_roundtrip. Qed.
+
+(** ---------------------------------------------------------------------------------------------
+    Injectivity: the encoder reads every field from its own slot, so two states that differ in ANY
+    field have different encodings (and the reader returns exactly what was put in each slot, by the
+    round trip).  This is the formal reason why writing another accessor into a slot (seeded C12-r2-3)
+    is observable; [C12_field_pins] is the syntactic check that no writer does so. *)
+Theorem C12_encoding_injective : forall pk es a b, tlvs_wf es = true -> tlv_dom pk es a = true -> tlv_dom pk es b = true ->
+  tlv_enc es a = tlv_enc es b -> a = b.
+Proof. exact tlv_enc_injective. Qed.
+
+Theorem C12_suffix_encoding_injective : forall pk es a b, tlvs_wf es = true -> tlv_dom pk es a = true -> tlv_dom pk es b = true ->
+  len (tlv_enc es a) < 2 ^ 64 -> len (tlv_enc es b) < 2 ^ 64 ->
+  suffix_enc es a = suffix_enc es b -> a = b.
+Proof. exact suffix_enc_injective. Qed.
+
+(** non-vacuity of the new theorems: LegacyChannelConfig-like schema before/after eef008b (odd TLV 7 with a
+    default), a defaulted field absent, a required field missing, the channel's version pair *)
+Example C12_compat_example :
+  let old := [mk_entry 0 KReq (FB (BU 4)); mk_entry 6 KReq (FB BBool); mk_entry 8 KReq (FB (BU 4))] in
+  let e7 := mk_entry 7 KOpt (FB BBool) in
+  let d7 := mk_entry 7 (KDefault [VZ 0]) (FB BBool) in
+  let es1 := [mk_entry 0 KReq (FB (BU 4)); mk_entry 6 KReq (FB BBool)] in
+  let es2 := [mk_entry 8 KReq (FB (BU 4))] in
+  tlvs_wf (es1 ++ e7 :: es2) = true /\
+  (* new writer, old reader *)
+  tlv_dec (fun _ => true) old (tlv_enc (es1 ++ e7 :: es2) [Some [VZ 9]; Some [VZ 1]; Some [VZ 1]; Some [VZ 1000]])
+    = ROk [Some [VZ 9]; Some [VZ 1]; Some [VZ 1000]] /\
+  (* old writer, new reader with the documented default *)
+  tlv_dec (fun _ => true) (es1 ++ d7 :: es2) (tlv_enc old [Some [VZ 9]; Some [VZ 1]; Some [VZ 1000]])
+    = ROk [Some [VZ 9]; Some [VZ 1]; Some [VZ 0]; Some [VZ 1000]] /\
+  tlv_dom (fun _ => true) (map relax (es1 ++ d7 :: es2)) [Some [VZ 9]; Some [VZ 1]; None; Some [VZ 1000]] = true /\
+  fill_all (es1 ++ d7 :: es2) [Some [VZ 9]; Some [VZ 1]; None; Some [VZ 1000]] = [Some [VZ 9]; Some [VZ 1]; Some [VZ 0]; Some [VZ 1000]] /\
+  (* the writer stopped before the required TLV 8 *)
+  tlv_dec (fun _ => true) old (tlv_enc es1 [Some [VZ 9]; Some [VZ 1]]) = RErr "InvalidValue" /\
+  (* two states differing in one field *)
+  tlv_enc old [Some [VZ 9]; Some [VZ 1]; Some [VZ 1000]] <> tlv_enc old [Some [VZ 9]; Some [VZ 1]; Some [VZ 1001]] /\
+  In ("channel.rs"%string, 4, 4) persist_versions /\
+  ver_dec 4 (ver_enc 4 4 ++ [42]) = ROk (4, [42]) /\ ver_dec 4 [5; 5; 42] = RErr "UnknownVersion" /\
+  obj_dec (fun _ => true) 1 [BU 8; BBool] old (obj_enc 1 1 [BU 8; BBool] old [VZ 77; VZ 1] [Some [VZ 9]; Some [VZ 1]; Some [VZ 1000]] ++ [3])
+    = ROk (1, [VZ 77; VZ 1], [Some [VZ 9]; Some [VZ 1]; Some [VZ 1000]], [3]).
+Proof. repeat split; try (vm_compute; reflexivity). vm_compute. discriminate. vm_compute. tauto. Qed.
